@@ -121,6 +121,22 @@ struct Plan {
     versions: Vec<Version>,
     changes: Vec<&'static str>,
     history: Vec<usize>,
+    /// what somebody else does to the output location before step i: 0 nothing, 1 removes the first output file,
+    /// 2 overwrites the last one with other bytes, 3 removes Codable.swift (the last file where there is none)
+    interfere: Vec<u8>,
+    /// settings of all runs of the history (from a configuration file)
+    cfg: LangCfg,
+}
+
+/// settings beyond the defaults: packages, prefixes, acronyms, and for Swift a list of conformances long enough for its order
+/// to be visible
+fn rich_cfg(lang: LangId, rng: &mut Rng) -> LangCfg {
+    let mut c = LangCfg::shaped(lang, rng);
+    if lang == LangId::Swift && rng.coin() {
+        c.default_decorators = vec!["Sendable".into(), "Identifiable".into(), "Equatable".into()];
+        c.codablevoid_constraints = vec!["Equatable".into(), "Hashable".into(), "Comparable".into(), "CustomStringConvertible".into()];
+    }
+    c
 }
 
 pub fn run(ctx: &Ctx) -> (Spec, Report) {
@@ -153,12 +169,25 @@ pub fn run(ctx: &Ctx) -> (Spec, Report) {
             }
             let n_crates = if multi { 3 } else { 2 };
             let reps = ctx.tier.pick(2, 6);
-            for _ in 0..reps {
+            for r in 0..reps {
                 let (vs, ch) = mk_versions(&mut rng, 2, n_crates, &mut counter);
+                // the first repetition under the defaults, the others under richer settings
+                let cfg = if r == 0 { LangCfg::basic(lang) } else { rich_cfg(lang, &mut rng) };
                 for len in 1..=4usize {
                     for bits in 0..(1u32 << len) {
                         let history: Vec<usize> = (0..len).map(|i| ((bits >> i) & 1) as usize).collect();
-                        plans.push(Plan { lang, multi, n_crates, versions: vs.clone(), changes: ch.clone(), history });
+                        plans.push(Plan { lang, multi, n_crates, versions: vs.clone(), changes: ch.clone(), history, interfere: vec![], cfg: cfg.clone() });
+                    }
+                }
+                // the output location is not the tool's alone (a checkout that ignores generated support files, a clean-up
+                // script, an editor): whatever happened to it between two runs, the next run restores what it is responsible for
+                for kind in 1..=3u8 {
+                    for history in [vec![0, 0], vec![0, 1, 1], vec![0, 0, 1]] {
+                        for at in 1..history.len() {
+                            let mut interfere = vec![0u8; history.len()];
+                            interfere[at] = kind;
+                            plans.push(Plan { lang, multi, n_crates, versions: vs.clone(), changes: ch.clone(), history: history.clone(), interfere, cfg: cfg.clone() });
+                        }
                     }
                 }
             }
@@ -173,7 +202,9 @@ pub fn run(ctx: &Ctx) -> (Spec, Report) {
         let (vs, ch) = mk_versions(&mut rng, nv, n_crates, &mut counter);
         let len = rng.range(3, 6);
         let history: Vec<usize> = (0..len).map(|_| rng.below(nv)).collect();
-        plans.push(Plan { lang, multi, n_crates, versions: vs, changes: ch, history });
+        let interfere: Vec<u8> = (0..len).map(|i| if i > 0 && rng.chance(1, 4) { rng.range(1, 3) as u8 } else { 0 }).collect();
+        let cfg = if rng.coin() { LangCfg::basic(lang) } else { rich_cfg(lang, &mut rng) };
+        plans.push(Plan { lang, multi, n_crates, versions: vs, changes: ch, history, interfere, cfg });
     }
     let cli = ctx.cli.clone();
     let scratch = ctx.scratch("hist");
@@ -182,7 +213,10 @@ pub fn run(ctx: &Ctx) -> (Spec, Report) {
         let p = &plans_ref[pi];
         let mut rep = Report::new();
         let root = scratch.join(format!("h{pi}"));
-        let cfg = LangCfg::basic(p.lang);
+        let cfg = p.cfg.clone();
+        let cfgp = root.join("verif-typeshare.toml");
+        let _ = std::fs::create_dir_all(&root);
+        std::fs::write(&cfgp, crate::sut::config_toml(p.lang, &cfg)).expect("write config");
         let lname = p.lang.name();
         let mode = if p.multi { "multi-file" } else { "single-file" };
         // materialise versions
@@ -196,7 +230,8 @@ pub fn run(ctx: &Ctx) -> (Spec, Report) {
         let out_of = |tag: &str| -> PathBuf { if p.multi { root.join(format!("out-{tag}")) } else { root.join(format!("out-{tag}.{}", p.lang.ext())) } };
         let run_version = |k: usize, out: &Path, log: Option<PathBuf>| {
             let src = root.join(format!("v{k}"));
-            let args = cli_args(p.lang, &cfg, p.multi, out, &[src.to_str().unwrap()]);
+            let mut args = vec!["--config-file".to_string(), cfgp.to_string_lossy().into_owned()];
+            args.extend(cli_args(p.lang, &cfg, p.multi, out, &[src.to_str().unwrap()]));
             run_bin(BinRun { cli: &cli, args, env: vec![], cwd: &root, strace: log, wall_limit: Duration::from_secs(30) })
         };
         // fresh references
@@ -221,6 +256,27 @@ pub fn run(ctx: &Ctx) -> (Spec, Report) {
         let hist_label: String = p.history.iter().map(|k| k.to_string()).collect::<Vec<_>>().join(",");
         for (step, &k) in p.history.iter().enumerate() {
             let log = root.join(format!("strace-{step}.log"));
+            let meddling = p.interfere.get(step).copied().unwrap_or(0);
+            if meddling != 0 && !prev_snap.is_empty() {
+                let names: Vec<&String> = prev_snap.keys().collect();
+                let target = |n: &String| if p.multi { out.join(n) } else { out.clone() };
+                match meddling {
+                    1 => {
+                        let _ = std::fs::remove_file(target(names[0]));
+                    }
+                    2 => {
+                        let _ = std::fs::write(target(names[names.len() - 1]), b"// somebody else's bytes\n");
+                    }
+                    _ => {
+                        let n = names.iter().find(|n| n.ends_with("Codable.swift")).copied().unwrap_or(names[names.len() - 1]);
+                        let _ = std::fs::remove_file(target(n));
+                    }
+                }
+                rep.count("steps_after_outside_interference", 1);
+                rep.cell(format!("interference|{lname}|{mode}|kind{meddling}|{}", if prev_version == Some(k) { "same-version" } else { "other-version" }));
+                // what the run finds is no longer what the previous run left: the untouched-rerun promise does not apply
+                prev_version = None;
+            }
             // make a rewrite observable through mtime even on coarse clocks
             std::thread::sleep(Duration::from_millis(3));
             let o = run_version(k, &out, Some(log.clone()));
@@ -235,7 +291,7 @@ pub fn run(ctx: &Ctx) -> (Spec, Report) {
             rep.count("syscall_events_logged", events.len() as u64);
             let snap = snapshot(&out, p.multi);
             let detail = |extra: serde_json::Value| {
-                json!({"language": lname, "mode": mode, "history": hist_label, "step": step, "version": k, "changes_between_versions": p.changes,
+                json!({"language": lname, "mode": mode, "history": hist_label, "interference_before_step": p.interfere, "config": p.cfg.to_json(), "step": step, "version": k, "changes_between_versions": p.changes,
                        "versions": p.versions.iter().map(|v| render_version(v, p.n_crates).iter().map(|f| json!({"path": f.path, "source": f.source})).collect::<Vec<_>>()).collect::<Vec<_>>(), "extra": extra})
             };
             if prev_version == Some(k) {
@@ -293,7 +349,7 @@ pub fn run(ctx: &Ctx) -> (Spec, Report) {
     let _ = std::fs::remove_dir_all(&scratch);
     let spec = Spec {
         level: "exploration",
-        rule: format!("{} histories of runs of the real binary into one persistent output location: all 30 histories of length <= 4 over 2 source versions for every (language, mode) pair, plus seeded histories of 3-6 runs over 2-4 versions (type added / removed / renamed / moved between crates, () use toggled for Codable.swift, field toggled); every run under strace; oracle: an unchanged re-run produces no create/truncate/write/rename/unlink event on the output location and leaves bytes, mtime_ns and inode of every file unchanged; after every run each file a fresh run of that version creates has exactly the fresh run's bytes; distinct = (kind of step, language, mode, change kind)", plans.len()),
+        rule: format!("{} histories of runs of the real binary into one persistent output location: all 30 histories of length <= 4 over 2 source versions for every (language, mode) pair (once under the default settings, then under richer ones from a configuration file: packages, prefixes, acronyms, Swift decorator and CodableVoid conformance lists of three and four entries), 15 more per pair in which somebody else removes or overwrites an output file (a module, Codable.swift) between two runs, the same in a quarter of the steps of the seeded histories, plus seeded histories of 3-6 runs over 2-4 versions (type added / removed / renamed / moved between crates, () use toggled for Codable.swift, field toggled); every run under strace; oracle: an unchanged re-run produces no create/truncate/write/rename/unlink event on the output location and leaves bytes, mtime_ns and inode of every file unchanged; after every run each file a fresh run of that version creates has exactly the fresh run's bytes; distinct = (kind of step, language, mode, change kind)", plans.len()),
         assumptions: vec![
             "files left behind by earlier versions (a crate that disappeared, an unused Codable.swift) are not the last run's responsibility".into(),
             "multi-file mode is exercised for TypeScript, Kotlin, Swift and Python (Scala and Go have no multi-file support)".into(),
